@@ -1216,6 +1216,13 @@ func (x *Exec) useSpecAxioms() {
 	x.axiomsLoaded = true
 	for _, sig := range x.specs.specFns {
 		for _, so := range append(append([]string{}, sig.Args...), sig.Res) {
+			if strings.HasPrefix(so, "Slc_S_types_") {
+				// a slice of messages: declare the message sort (with its fields) through the Go type
+				if t := x.e.tryMsgType(so[len("Slc_S_types_"):]); t != nil {
+					x.e.sortOf(types.NewSlice(t))
+					continue
+				}
+			}
 			if strings.HasPrefix(so, "Slc_") {
 				x.e.sliceSort(so[4:])
 			}
